@@ -55,13 +55,68 @@ def observer(got, pred, sp, call, sg, prog, ctx, part):
                 bad('gradient value differs from the true partial derivative',
                     {'wrt': vname, 'got': have, 'expected': want, 'D': interp.term_str(dterm), 'point': {k: str(v) for k, v in pt.items()}})
                 return
+    if ctx.pars:
+        param_step(got, den, D, used, ctx, part, bad)
+
+
+def param_step(got, den, D, used, ctx, part, bad):
+    """The gradient of an expression with parameters is a function of the parameters' CURRENT values: both the
+    tree obtained before Parameter.set and a fresh gradient() call (cache hit) are evaluated after the update."""
+    from fractions import Fraction as Fr
+    from optyx.core.autodiff import gradient
+    from .c01 import _pars
+    pids = set(_pars(den))
+    if not pids:
+        return
+    for key, dterm in D.items():
+        vname = name_of(key)
+        if vname not in used:
+            continue
+        var = ctx.varmap[vname]
+        try:
+            g_before = gradient(got, var)
+        except Exception:
+            return
+        for pid in pids:
+            old = ctx.pars[pid]
+            for new in (old + Fr(3, 4), Fr(2), Fr(3)):
+                if new == old:
+                    continue
+                ctx.parobjs[pid].set(float(new))
+                try:
+                    pars2 = dict(ctx.pars)
+                    pars2[pid] = new
+                    g_after = gradient(got, var)
+                    for pt in ctx.points[:4]:
+                        if not interp.regular_for_derivative(den, pt, pars2):
+                            continue
+                        try:
+                            want, tol = progjudge.oracle(dterm, pt, pars2)
+                        except Irregular:
+                            continue
+                        vals = progjudge.fvals(pt)
+                        for what, g in (('gradient tree obtained before Parameter.set', g_before), ('gradient() called after Parameter.set', g_after)):
+                            have = progjudge.tofloat(g.evaluate(vals))
+                            part['evaluations'] += 1
+                            if not interp.close(have, want, max(tol, ctx.looser * (1 + abs(want)))):
+                                bad('%s does not follow the parameter' % what, {'wrt': vname, 'got': have, 'expected': want, 'parameter': float(new),
+                                                                                 'point': {k: str(v) for k, v in pt.items()}})
+                                return
+                except Exception as e:
+                    bad('gradient raises %s after Parameter.set' % type(e).__name__, {'wrt': vname})
+                    return
+                finally:
+                    ctx.parobjs[pid].set(float(old))
 
 
 def run(report, tier):
     apirun.run_config(report, 'MC_C01', observer=observer, report_kinds=('S',), overrides={'Want': '<-MC_WantD'})
     apirun.run_config(report, 'MC_C01M', observer=observer, report_kinds=('S',), overrides={'Want': '<-MC_WantD'})
+    if tier == 'thorough':      # one call deeper over a reduced alphabet (3 functions, 2 literals)
+        apirun.run_config(report, 'MC_C01', observer=observer, report_kinds=('S',), overrides=dict({'MaxCalls': 3, 'Fns': '<-MC_FnsSmall', 'ScalarLits': '<-MC_ScalarLitsSmall'}, Want='<-MC_WantD'), tag='deep')
     return report.finish(
         rule='every Api program of <= MaxCalls calls of the C01/C02 signature with a scalar result x every declared variable '
              '(occurring or not): gradient(e, v).evaluate(p) at regular rational points vs. the spec derivative D(Den(e), v) '
-             '(TLC checks D exact on the rational fragment); non-occurring variables must give exactly 0.',
+             '(TLC checks D exact on the rational fragment); non-occurring variables must give exactly 0; for programs with a parameter, the '
+             'gradient tree obtained before Parameter.set and a fresh gradient() call are both evaluated after the update.',
         exhaustive=True)
